@@ -1842,6 +1842,10 @@ class Translator:
         try:
             if fn.args.vararg or fn.args.kwarg or fn.args.kwonlyargs:
                 raise Unsupp('*args/**kwargs')
+            for d in fn.decorator_list:
+                if ast.unparse(d) not in ('staticmethod', 'classmethod', 'property'):
+                    # what runs is the decorator's result, not this body
+                    raise Unsupp('decorated with %s' % ast.unparse(d)[:60])
             c = Ctx(self, mod, 0, 'ipmi')
             ps = fn.args.args[1:]
             defaults = [None] * (len(ps) - len(fn.args.defaults)) + list(fn.args.defaults)
